@@ -38,6 +38,10 @@ type dcfg struct {
 	gpus  int
 	pages int // pages allocated on GPU 1 (one buffer)
 	reqs  []migReq
+	// allocDuring: GPU 1 has exactly `pages` frames (it is full), and the application asks for one more page on
+	// it whenever a page copy has been handed to the command processor and is not yet acknowledged. The call
+	// may fail for lack of memory; if it succeeds the new page must not sit on a frame the copy still reads.
+	allocDuring bool
 }
 
 const log2Page = 12
@@ -52,7 +56,11 @@ func driverBody(c dcfg) explore.Body {
 		for i := 0; i < c.gpus; i++ {
 			cp := fakeP{n: sim.RemotePort(fmt.Sprintf("GPU%d.CP", i+1))}
 			cps = append(cps, cp)
-			d.RegisterGPU(cp, driver.DeviceProperties{CUCount: 4, DRAMSize: 64 * pageSize})
+			dram := uint64(64 * pageSize)
+			if c.allocDuring && i == 0 {
+				dram = uint64(c.pages) * pageSize
+			}
+			d.RegisterGPU(cp, driver.DeviceProperties{CUCount: 4, DRAMSize: dram})
 			pmc := fakeP{n: sim.RemotePort(fmt.Sprintf("GPU%d.PMC", i+1))}
 			pmcs = append(pmcs, pmc)
 			d.RemotePMCPorts = append(d.RemotePMCPorts, pmc)
@@ -220,6 +228,32 @@ func driverBody(c dcfg) explore.Body {
 				ph.rdmaRestartAck++
 			}
 		}
+		// the application allocates while a page copy is in flight
+		pendingAlloc, inFlightSrc := false, uint64(0)
+		if c.allocDuring {
+			world.OnSend(gpuPort, func(m sim.Msg) {
+				if msg, ok := m.(*protocol.PageMigrationReqToCP); ok {
+					pendingAlloc, inFlightSrc = true, msg.ToReadFromPhysicalAddress&^(pageSize-1)
+				}
+			})
+		}
+		appAlloc := func() {
+			defer func() { recover() }() // "out of memory" on the full GPU is an acceptable answer
+			d.SelectGPU(ctx, 1)
+			ptr := uint64(d.AllocateMemory(ctx, pageSize))
+			p, ok := pt.Find(pid, ptr)
+			if !ok {
+				fail("application-buffer-unmapped", "AllocateMemory returned %x, not mapped", ptr)
+				return
+			}
+			fmt.Fprintf(&trace, "app-alloc@%x;", p.PAddr)
+			if p.PAddr&^(pageSize-1) == inFlightSrc {
+				fail("frame-of-in-flight-migration-handed-out", "AllocateMemory on GPU 1 returned frame %x, which the page copy in flight still reads", p.PAddr)
+			}
+			for j := range pg(p.PAddr) { // the application fills its new buffer
+				pg(p.PAddr)[j] = 0xEE
+			}
+		}
 		mmuF := &world.Feeder{W: w, Port: mmuPort, Tag: "mmu"}
 		mmuSink := &world.Sink{W: w, Port: mmuPort, Tag: "mmu", StallAlphabet: []int{1, 3}}
 		checkDone := func(i int) {
@@ -314,6 +348,10 @@ func driverBody(c dcfg) explore.Body {
 				}
 				pending = true
 			}
+			if pendingAlloc { // the copy request is on the wire, not yet taken by the command processor
+				pendingAlloc = false
+				appAlloc()
+			}
 			pending = mmuSink.Step(1) || pending
 			pending = gpuSink.Step(4) || pending
 			pending = mmuF.Step(1) || pending
@@ -379,12 +417,15 @@ func driverScenarios(r *harness.Run) []harness.Scenario {
 		name string
 		c    dcfg
 	}{
-		{"2gpu/one-page", dcfg{2, 3, []migReq{{1, []uint64{1}, one(2, 0), 1}}}},
-		{"2gpu/two-pages-one-request", dcfg{2, 3, []migReq{{1, []uint64{1, 2}, one(2, 0, 1), 1}}}},
-		{"2gpu/three-pages-one-request", dcfg{2, 4, []migReq{{1, []uint64{1}, one(2, 2, 0, 1), 1}}}},
-		{"2gpu/two-requests-queued", dcfg{2, 3, []migReq{{1, []uint64{1}, one(2, 0), 1}, {1, []uint64{1, 2}, one(2, 2), 2}}}},
-		{"3gpu/two-requesters", dcfg{3, 3, []migReq{{1, []uint64{1, 3}, map[uint64][]int{2: {0}, 3: {1}}, 1}}}},
-		{"3gpu/two-requests-different-targets", dcfg{3, 3, []migReq{{1, []uint64{1}, one(3, 1), 1}, {1, []uint64{1, 2, 3}, one(2, 0, 2), 8}}}},
+		{"2gpu/one-page", dcfg{2, 3, []migReq{{1, []uint64{1}, one(2, 0), 1}}, false}},
+		{"2gpu/two-pages-one-request", dcfg{2, 3, []migReq{{1, []uint64{1, 2}, one(2, 0, 1), 1}}, false}},
+		{"2gpu/three-pages-one-request", dcfg{2, 4, []migReq{{1, []uint64{1}, one(2, 2, 0, 1), 1}}, false}},
+		{"2gpu/two-requests-queued", dcfg{2, 3, []migReq{{1, []uint64{1}, one(2, 0), 1}, {1, []uint64{1, 2}, one(2, 2), 2}}, false}},
+		{"3gpu/two-requesters", dcfg{3, 3, []migReq{{1, []uint64{1, 3}, map[uint64][]int{2: {0}, 3: {1}}, 1}}, false}},
+		{"3gpu/two-requests-different-targets", dcfg{3, 3, []migReq{{1, []uint64{1}, one(3, 1), 1}, {1, []uint64{1, 2, 3}, one(2, 0, 2), 8}}, false}},
+		{"2gpu/one-page/app-allocates-during-copy", dcfg{2, 3, []migReq{{1, []uint64{1}, one(2, 0), 1}}, true}},
+		{"2gpu/two-pages-one-request/app-allocates-during-copy", dcfg{2, 2, []migReq{{1, []uint64{1, 2}, one(2, 0, 1), 1}}, true}},
+		{"3gpu/two-requests/app-allocates-during-copy", dcfg{3, 3, []migReq{{1, []uint64{1}, one(3, 1), 1}, {1, []uint64{1, 2, 3}, one(2, 0, 2), 8}}, true}},
 	}
 	bound := 2
 	if r.Thorough() {
